@@ -71,10 +71,31 @@ def descent_map(P, fname):
     return out, ir.fmt(N.canon(cn['decl']['init'])), None
 
 
+LOOKUP = {}
+
+
 def check_descent(P, ctx):
     rule = 'C03.descent-agreement'
     want_cmp = None
-    for T_, fname in (('get', 'Tree_Get'), ('mem', 'Tree_Mem'), ('set', 'Tree_Set'), ('rem', 'Tree_Rem')):
+    from . import absmodel
+    for T_ in ('get', 'mem'):
+        # the two lookups are evaluated on every tree shape of up to 4 nodes, for every stored key and every absent one
+        fn = P.fn(P.slot('Tree', 'Get', T_))
+        ctx.fn(fn)
+        try:
+            bad_hit, bad_miss, unsup, ncase = absmodel.eval_tree_lookup(P, T_)
+        except absmodel.Unsupported as x:
+            bad_hit, bad_miss, unsup, ncase = None, None, str(x), 0
+        ctx.stats['paths'] += ncase
+        LOOKUP[(id(P), T_)] = (bad_hit, bad_miss, unsup)
+        if unsup and not bad_hit:
+            ctx.undecided(rule, fn['name'], site(fn), 'the lookup leaves the evaluated fragment: ' + unsup)
+            continue
+        ctx.check(bad_hit is None, rule, fn['name'] + ':operands', site(fn), 'the descent compares the stored key of the current node with the sought key and finds every stored key '
+                  '(every tree shape of up to 4 nodes, %d evaluations)' % ncase, [bad_hit] if bad_hit else None)
+        ctx.check(bad_hit is None, rule, fn['name'] + ':direction', site(fn),
+                  'a negative comparison continues in the left child, a positive one in the right child — the same convention in get, mem, set and rem', [bad_hit] if bad_hit else None)
+    for T_, fname in (('set', 'Tree_Set'), ('rem', 'Tree_Rem')):
         fn = P.fn(P.slot('Tree', 'Get', T_))
         ctx.fn(fn)
         m, cmpc, why = descent_map(P, fn['name'])
@@ -92,22 +113,25 @@ def check_descent(P, ctx):
 
 
 def check_mirror(P, ctx):
-    rule = 'C03.mirror'
-    swap = {'Tree_Left': 'Tree_Right', 'Tree_Right': 'Tree_Left'}
-    # the rotations are no longer compared textually: they are interpreted by the shape analysis wherever a fix-up uses them
-    pairs = [(P.slot('Tree', 'Iter', 'iter_next'), P.slot('Tree', 'Iter', 'iter_prev')),
-             (P.slot('Tree', 'Iter', 'iter_init'), P.slot('Tree', 'Iter', 'iter_last'))]
-    from . import inline
-    spine = {n: P.fn(n) for n in ('Tree_Maximum',) if P.fn(n, required=False)}
-    for a, b in pairs:
-        fa, fb = P.fn(a), P.fn(b)
-        ctx.fn(fa)
-        ctx.fn(fb)
-        # a spine walk may be open-coded on one side and a helper call on the other: compare with the helper spliced in
-        fa, fb = inline.splice_into(fa, spine), inline.splice_into(fb, spine)
-        d = mirror.first_difference(mirror.canon_body(fa, swap), mirror.canon_body(fb, {}))
-        ctx.check(d is None, rule, '%s<->%s' % (a, b), site(fb), 'the two functions are mirror images of each other under Left<->Right', ['first difference: %s' % d] if d else None)
-    ctx.floor(rule, 2)
+    """forward iteration visits the keys in the tree's in-order sequence and backward iteration is its exact reverse: the four cursor
+    functions are evaluated (cint; links, parent words with either colour bit, key offsets taken from the accessors) on every binary
+    tree shape of up to 4 nodes, from every node"""
+    from . import absmodel
+    rule = 'C03.cursor-order'
+    try:
+        bad, unsup, ncase = absmodel.eval_cursor_walk(P, 'Tree')
+    except absmodel.Unsupported as x:
+        bad, unsup, ncase = {}, str(x), 0
+    ctx.stats['paths'] += ncase
+    for m in ('iter_init', 'iter_next', 'iter_last', 'iter_prev'):
+        fn = P.fn(P.slot('Tree', 'Iter', m))
+        ctx.fn(fn)
+        if unsup and not bad.get(m):
+            ctx.undecided(rule, 'Tree.' + m, site(fn), 'the cursor function leaves the evaluated fragment: ' + unsup)
+        else:
+            ctx.check(bad[m] is None, rule, 'Tree.' + m, site(fn), 'walking every tree shape of up to 4 nodes (both colour-bit settings) with the cursor functions yields the in-order key '
+                      'sequence forwards and its reverse backwards, ending with Terminal (%d evaluations)' % ncase, [bad[m]] if bad[m] else None)
+    ctx.floor(rule, 4)
 
 
 def check_links(P, ctx):
@@ -190,8 +214,22 @@ def check_miss_and_counts(P, ctx):
     rule = 'C03.miss-raises'
     for m, want in (('get', 'KeyError'), ('rem', 'KeyError'), ('mem', False)):
         fn = P.fn(P.slot('Tree', 'Get', m))
-        g = P.cfg(fn)
         ctx.fn(fn)
+        if m in ('get', 'mem'):
+            from . import absmodel
+            if (id(P), m) not in LOOKUP:
+                try:
+                    LOOKUP[(id(P), m)] = absmodel.eval_tree_lookup(P, m)[:3]
+                except absmodel.Unsupported as x:
+                    LOOKUP[(id(P), m)] = (None, None, str(x))
+            bad_hit, bad_miss, unsup = LOOKUP[(id(P), m)]
+            if unsup and not bad_miss:
+                ctx.undecided(rule, fn['name'], site(fn), 'the lookup leaves the evaluated fragment: ' + unsup)
+            else:
+                ctx.check(bad_miss is None, rule, fn['name'], site(fn), 'a key that is not in the tree %s (evaluated on every tree shape of up to 4 nodes, one absent key per gap)' % (
+                    'raises KeyError' if want else 'yields false'), [bad_miss] if bad_miss else None)
+            continue
+        g = P.cfg(fn)
         N = util.Norm(P, fn, inline=False)
         cm = [n for n in g.live() if n.get('decl') and n['decl']['init'] is not None and ir.top_nocast(n['decl']['init'])[0] == 'call' and ir.callee_name(ir.top_nocast(n['decl']['init'])) == 'cmp']
         ok = len(cm) == 1
@@ -489,8 +527,8 @@ def run(ctx, load):
 
 EXPLANATION = (
     'Decided: (a) descent-agreement — get, mem, set and rem all compare cmp(stored key, sought key) and map negative to the left child, '
-    'positive to the right child (decided by evaluating the branch conditions for c in {-1,0,1}); (b) mirror — the forward/backward '
-    'cursor functions are mirror images under Left<->Right; (c) link-pairing — every child-link store is paired with the '
+    'positive to the right child (decided by evaluating the branch conditions for c in {-1,0,1}); (b) cursor-order — the four cursor functions, evaluated on every tree shape of up to 4 nodes, '
+    'yield the in-order key sequence and its reverse; (c) link-pairing — every child-link store is paired with the '
     'child\'s parent-link update on every path (NULL child excepted); the colour tag bit and the parent pointer share a word and setting '
     'one preserves the other; (d) absent keys raise KeyError / yield false; insert counts once and rebalances once, replace does neither, '
     'remove decrements once and frees exactly the unlinked node; (e) layout — node size, key/value/link offsets, node recovery from a key '
